@@ -184,6 +184,19 @@ pub async fn shutdown<C: Config>(mut engine: Arc<Engine<C>>) -> bool {
     false
 }
 
+/// User-level repair of the transitive firewall callees of `nodes` (masks the
+/// known finding C01-F1 in checks whose subject is something else).
+pub async fn prerepair_tfc<C: Config>(t: &TrackedEngine<C>, nodes: &[NodeId]) {
+    for n in nodes {
+        match n.kind {
+            Kind::N => t.repair_transitive_firewall_callees(&N(n.idx)).await,
+            Kind::F => t.repair_transitive_firewall_callees(&F(n.idx)).await,
+            Kind::P => t.repair_transitive_firewall_callees(&P(n.idx)).await,
+            _ => {}
+        }
+    }
+}
+
 pub async fn query_node<C: Config>(t: &TrackedEngine<C>, n: NodeId) -> i64 {
     match n.kind {
         Kind::In => t.query(&In(n.idx)).await,
